@@ -1,9 +1,373 @@
-"""Program generators shared by the end-to-end layers (typed grammar, bounded)."""
+"""Program generators shared by the end-to-end layers (typed grammar over the configured builtin classes, bounded).
+
+Levels: L0 straight-line (literals, locals, ternary unions, array/hash literals, indexing, configured calls);
+L1 + if/unless/elsif/else with nil?/is_a?/== conditions; L2 + blocks; L3 + user methods; L4 + classes/modules.
+`rich=True` adds constructs used only by the robustness properties (safe navigation, case/when, while, begin/rescue, attr_*).
+Every random choice comes from the rng passed in."""
+import glob
+import json
+import os
+import re
+
+LIT = {
+    "Integer": ["1", "42", "0", "7"],
+    "String": ["'s'", "\"ab\"", "'x y'"],
+    "Float": ["1.5", "0.25"],
+    "NilClass": ["nil"],
+    "Symbol": [":a", ":key"],
+    "Bool": ["true", "false"],
+    "Array": ["[1, 2]", "['a']", "[]", "[1, 'a']", "[[1], [2]]"],
+    "Hash": ["{a: 1}", "{}", "{a: 1, b: 's'}"],
+    "Range": ["(1..3)"],
+}
+TYPEMAP = {"Int": "Integer", "Integer": "Integer", "String": "String", "Float": "Float", "NilClass": "NilClass", "Symbol": "Symbol",
+           "Bool": "Bool", "Array": "Array", "Hash": "Hash", "Range": "Range", "DefaultInt": "Integer", "DefaultString": "String",
+           "DefaultFloat": "Float", "DefaultBool": "Bool", "IntArray": "Array", "StringArray": "Array", "FloatArray": "Array"}
+IDENT = re.compile(r"^[a-z_][a-z0-9_]*[?!]?$")
+
+
+class Config:
+    def __init__(self, cfgdir):
+        self.classes = {}
+        for f in sorted(glob.glob(os.path.join(cfgdir, "*.json"))):
+            try:
+                d = json.load(open(f))
+            except Exception:
+                continue
+            if d.get("frame") != "Builtin":
+                continue
+            c = self.classes.setdefault(d.get("class", ""), {"inst": {}, "static": {}, "extends": d.get("extends") or []})
+            for kind, key in (("inst", "instance_methods"), ("static", "class_methods")):
+                for m in d.get(key) or []:
+                    c[kind].setdefault(m["name"], []).append(m)
+
+    def methods(self, cls, kind="inst", seen=None):
+        seen = seen or set()
+        if cls in seen or cls not in self.classes:
+            return {}
+        seen.add(cls)
+        out = {}
+        for p in self.classes[cls]["extends"]:
+            out.update(self.methods(p.split("::")[-1], kind, seen))
+        out.update(self.classes[cls][kind])
+        return out
+
+
+def _types(spec):
+    t = spec.get("type") if isinstance(spec, dict) else None
+    if t is None:
+        return []
+    return [t] if isinstance(t, str) else list(t)
+
+
+class Gen:
+    def __init__(self, rng, cfg, level=2, rich=False, prefix="v"):
+        self.rng, self.cfg, self.level, self.rich, self.prefix = rng, cfg, level, rich, prefix
+        self.env = {}          # var -> type name or None (unknown) or tuple of types (union)
+        self.n = 0
+        self.lines = []
+        self.methods = []      # user methods: (name, nparams)
+        self.classes = []      # user classes: (name, [methods])
+
+    # ---- expressions
+    def fresh(self):
+        self.n += 1
+        return "%s%d" % (self.prefix, self.n)
+
+    def lit(self, t=None):
+        t = t or self.rng.choice(list(LIT))
+        return self.rng.choice(LIT[t]), t
+
+    def var_of(self, t=None):
+        c = [v for v, vt in self.env.items() if (t is None and vt is not None and not isinstance(vt, tuple)) or vt == t]
+        return self.rng.choice(c) if c else None
+
+    def atom(self, t=None):
+        v = self.var_of(t)
+        if v and self.rng.random() < 0.6:
+            return v, self.env[v]
+        return self.lit(t)
+
+    def arg_for(self, spec, ok=True):
+        ts = [TYPEMAP.get(x.lstrip("?*")) for x in _types(spec)]
+        ts = [x for x in ts if x]
+        if not ok or not ts:
+            return self.atom()[0]
+        return self.atom(self.rng.choice(ts))[0]
+
+    def call(self, recv, rtype, want_block=False):
+        ms = self.cfg.methods(rtype)
+        names = [n for n, ds in ms.items() if IDENT.match(n) and n not in ("class", "p", "puts", "loop", "require", "raise", "sleep", "exit")
+                 and bool(ds[0].get("block_parameters")) == want_block]
+        if not names:
+            return None
+        name = self.rng.choice(names)
+        d = self.rng.choice(ms[name])
+        args = d.get("arguments") or []
+        ok = self.rng.random() < 0.75
+        vals = []
+        for a in args:
+            if a.get("key"):
+                if ok or self.rng.random() < 0.5:
+                    vals.append("%s %s" % (a["key"], self.arg_for(a, ok)))
+                continue
+            ts = _types(a)
+            if (a.get("is_default") or any(x.startswith("?") or x.startswith("Default") for x in ts)) and self.rng.random() < 0.5:
+                break
+            vals.append(self.arg_for(a, ok))
+        if not ok and self.rng.random() < 0.4:
+            vals.append(self.atom()[0]) if self.rng.random() < 0.5 else (vals and vals.pop())
+        rts = [TYPEMAP.get(x) for x in _types(d.get("return_type", {}))]
+        rt = rts[0] if len(rts) == 1 and rts[0] and not d.get("return_type", {}).get("is_conditional") else None
+        sep = "&." if self.rich and self.rng.random() < 0.15 else "."
+        style = self.rng.random()
+        if not vals:
+            code = "%s%s%s" % (recv, sep, name)
+        elif style < 0.75:
+            code = "%s%s%s(%s)" % (recv, sep, name, ", ".join(vals))
+        else:
+            code = "%s%s%s %s" % (recv, sep, name, ", ".join(vals))
+        return code, rt, d
+
+    def expr(self, depth=0):
+        r = self.rng.random()
+        if depth > 1 or r < 0.3:
+            return self.atom()
+        if r < 0.45:
+            a, ta = self.atom()
+            b, tb = self.atom()
+            cond = self.var_of("Bool") or self.rng.choice(["true", "false"])
+            return "%s ? %s : %s" % (cond, a, b), (ta if ta == tb else (ta, tb))
+        if r < 0.55:
+            items = [self.atom()[0] for _ in range(self.rng.randint(0, 3))]
+            return "[%s]" % ", ".join(items), "Array"
+        if r < 0.62:
+            items = ["%s: %s" % (k, self.atom()[0]) for k in self.rng.sample(["a", "b", "c"], self.rng.randint(1, 2))]
+            return "{%s}" % ", ".join(items), "Hash"
+        if r < 0.7:
+            v = self.var_of("Array")
+            if v:
+                return "%s[%s]" % (v, self.rng.choice(["0", "1", "-1"])), None
+            v = self.var_of("Hash")
+            if v:
+                return "%s[:%s]" % (v, self.rng.choice(["a", "b", "zz"])), None
+        if r < 0.8 and self.rich:
+            a, ta = self.atom(self.rng.choice(["Integer", "Float", "String"]))
+            b, tb = self.atom(self.rng.choice(["Integer", "Float", "String"]))
+            return "%s %s %s" % (a, self.rng.choice(["+", "-", "*", "<", "=="]), b), None
+        v = self.var_of()
+        if v is None:
+            return self.atom()
+        c = self.call(v, self.env[v])
+        if c is None:
+            return self.atom()
+        return c[0], c[1]
+
+    # ---- statements
+    def emit(self, s, ind=0):
+        for l in s.split("\n"):
+            self.lines.append("  " * ind + l)
+
+    def st_assign(self, ind=0):
+        v = self.fresh() if (not self.env or self.rng.random() < 0.7) else self.rng.choice(list(self.env))
+        code, t = self.expr()
+        self.emit("%s = %s" % (v, code), ind)
+        self.env[v] = t
+
+    def st_probe(self, ind=0):
+        if self.env:
+            self.emit("dbtp %s" % self.rng.choice(list(self.env)), ind)
+
+    def st_call(self, ind=0):
+        v = self.var_of()
+        if v:
+            c = self.call(v, self.env[v])
+            if c:
+                self.emit(c[0], ind)
+                return
+        self.st_assign(ind)
+
+    def cond(self):
+        vs = [v for v, t in self.env.items() if isinstance(t, tuple)] or list(self.env)
+        if not vs:
+            return "true", None
+        v = self.rng.choice(vs)
+        r = self.rng.random()
+        if r < 0.4:
+            return ("%s.nil?" % v if self.rng.random() < 0.7 else "!%s.nil?" % v), v
+        if r < 0.7:
+            return "%s.is_a?(%s)" % (v, self.rng.choice(["Integer", "String", "Float", "NilClass"])), v
+        return "%s == %s" % (v, self.lit()[0]), v
+
+    def body(self, ind, n=None):
+        for _ in range(n or self.rng.randint(1, 3)):
+            self.stmt(ind, nested=True)
+
+    def st_if(self, ind=0):
+        kw = self.rng.choice(["if", "if", "unless"])
+        c, v = self.cond()
+        self.emit("%s %s" % (kw, c), ind)
+        saved = dict(self.env)
+        self.body(ind + 1)
+        if kw == "if" and self.rng.random() < 0.3:
+            c2, _ = self.cond()
+            self.emit("elsif %s" % c2, ind)
+            self.body(ind + 1, 1)
+        if self.rng.random() < 0.5:
+            self.emit("else", ind)
+            self.body(ind + 1, 1)
+        self.emit("end", ind)
+        # variables first assigned inside keep an unknown type afterwards
+        for k in self.env:
+            if k not in saved:
+                self.env[k] = None
+
+    def st_block(self, ind=0):
+        v = self.var_of("Array") or self.var_of("Hash") or self.var_of("Range") or self.var_of("Integer") or self.var_of("String")
+        if not v:
+            return self.st_assign(ind)
+        c = self.call(v, self.env[v], want_block=True)
+        if not c:
+            return self.st_assign(ind)
+        code, rt, d = c
+        nb = len(d.get("block_parameters") or [])
+        k = self.rng.choice([nb, nb, max(0, nb - 1), nb + 1])
+        params = [self.fresh() for _ in range(k)]
+        saved = dict(self.env)
+        for p in params:
+            self.env[p] = None
+        brace = self.rng.random() < 0.3
+        head = "%s %s%s" % (code, "{" if brace else "do", (" |%s|" % ", ".join(params)) if params else "")
+        if self.rng.random() < 0.4:
+            head = "%s = %s" % (self.fresh(), head)
+        self.emit(head, ind)
+        self.body(ind + 1, self.rng.randint(1, 2))
+        self.emit("}" if brace else "end", ind)
+        self.env = {k2: (saved.get(k2)) for k2 in saved}
+
+    def st_def(self, ind=0):
+        name = "m_%s" % self.fresh()
+        k = self.rng.randint(0, 3)
+        params = [self.fresh() for _ in range(k)]
+        decl = []
+        for i, p in enumerate(params):
+            decl.append(p if i < 2 or self.rng.random() < 0.5 else "%s = %s" % (p, self.lit()[0]))
+        saved, self.env = self.env, {p: None for p in params}
+        self.emit("def %s(%s)" % (name, ", ".join(decl)), ind)
+        self.body(ind + 1, self.rng.randint(1, 3))
+        if self.rng.random() < 0.3 and self.env:
+            self.emit("return %s" % self.atom()[0], ind + 1)
+        self.emit("end", ind)
+        self.env = saved
+        self.methods.append((name, k))
+
+    def st_usercall(self, ind=0):
+        if not self.methods:
+            return self.st_assign(ind)
+        name, k = self.rng.choice(self.methods)
+        args = [self.atom()[0] for _ in range(self.rng.choice([k, k, max(0, k - 1), k + 1]))]
+        v = self.fresh()
+        self.emit("%s = %s(%s)" % (v, name, ", ".join(args)), ind)
+        self.env[v] = None
+
+    def st_class(self, ind=0):
+        name = "K%s" % self.fresh().capitalize()
+        parent = self.rng.choice([c[0] for c in self.classes]) if self.classes and self.rng.random() < 0.5 else None
+        self.emit("class %s%s" % (name, " < " + parent if parent else ""), ind)
+        ms = []
+        saved, self.env = self.env, {}
+        if self.rng.random() < 0.5:
+            self.emit("def initialize(a = 1)\n  @a = a\nend", ind + 1)
+        if self.rich and self.rng.random() < 0.3:
+            self.emit("attr_accessor :b", ind + 1)
+        for _ in range(self.rng.randint(1, 3)):
+            if self.rng.random() < 0.2:
+                self.emit(self.rng.choice(["private", "protected", "public"]), ind + 1)
+            m = "f_%s" % self.fresh()
+            static = self.rng.random() < 0.25
+            self.emit("def %s%s(x = nil)" % ("self." if static else "", m), ind + 1)
+            self.env = {"x": None}
+            self.body(ind + 2, self.rng.randint(1, 2))
+            self.emit("end", ind + 1)
+            ms.append((m, static))
+        self.emit("end", ind)
+        self.env = saved
+        self.classes.append((name, ms))
+        o = self.fresh()
+        self.emit("%s = %s.new" % (o, name), ind)
+        self.env[o] = None
+        m, static = self.rng.choice(ms)
+        self.emit("%s.%s" % (name if static else o, m), ind)
+
+    def st_rich(self, ind=0):
+        r = self.rng.random()
+        if r < 0.2:
+            v = self.fresh()
+            self.emit("%s = nil\n%s&.%s" % (v, v, self.rng.choice(["name", "to_s", "foo", "size"])), ind)
+            self.env[v] = "NilClass"
+        elif r < 0.4:
+            a = self.atom()[0]
+            self.emit("case %s\nwhen %s\n  %s\nelse\n  %s\nend" % (a, self.lit()[0], self.atom()[0], self.atom()[0]), ind)
+        elif r < 0.55:
+            v = self.var_of("Integer") or "1"
+            self.emit("while %s < 3\n  %s\nend" % (v, self.atom()[0]), ind)
+        elif r < 0.7:
+            self.emit("begin\n  %s\nrescue => e\n  %s\nend" % (self.atom()[0], self.atom()[0]), ind)
+        elif r < 0.85:
+            v = self.var_of("Hash") or "{a: 1}"
+            self.emit("case %s\nin {a:}\n  dbtp a\nend" % v, ind)
+        else:
+            self.emit("%s %s %s" % (self.atom()[0], self.rng.choice(["&&", "||", "and", "or"]), self.atom()[0]), ind)
+
+    def stmt(self, ind=0, nested=False):
+        r = self.rng.random()
+        lv = self.level
+        if r < 0.30:
+            self.st_assign(ind)
+        elif r < 0.42:
+            self.st_probe(ind)
+        elif r < 0.55:
+            self.st_call(ind)
+        elif r < 0.65 and lv >= 1 and ind < 3:
+            self.st_if(ind)
+        elif r < 0.73 and lv >= 2 and ind < 3:
+            self.st_block(ind)
+        elif r < 0.80 and lv >= 3 and not nested:
+            self.st_def(ind)
+        elif r < 0.86 and lv >= 3:
+            self.st_usercall(ind)
+        elif r < 0.91 and lv >= 4 and not nested:
+            self.st_class(ind)
+        elif r < 0.97 and self.rich:
+            self.st_rich(ind)
+        else:
+            self.st_assign(ind)
+
+    def program(self, nstmts):
+        for _ in range(3):
+            self.st_assign()
+        for _ in range(nstmts):
+            self.stmt()
+        return "\n".join(self.lines) + "\n"
+
+
+_CFG = {}
+
+
+def config(cfgdir):
+    if cfgdir not in _CFG:
+        _CFG[cfgdir] = Config(cfgdir)
+    return _CFG[cfgdir]
+
+
+def gen_program(rng, cfgdir, level=2, rich=False, nstmts=None, prefix="v"):
+    g = Gen(rng, config(cfgdir), level=level, rich=rich, prefix=prefix)
+    return g.program(nstmts or rng.randint(4, 10))
 
 
 def determinism_programs(rng, n):
-    """Programs whose signatures tie on (method, class, frame): class+instance method of one name,
-    same class name in two namespaces, methods called from several sites."""
+    """Programs whose signatures tie on (method, class, frame) or differ only by frame: class+instance method of one
+    name, the same class/method/signature in two namespaces, methods called from several sites."""
     out = []
     for i in range(n):
         lines = []
@@ -22,6 +386,12 @@ def determinism_programs(rng, n):
             lines.append("end")
             if wrap:
                 lines.append("end")
+        # the same class, method and signature in two modules (they differ only by frame)
+        body = rng.choice(["x", "'s'", "1"])
+        for mod in ("Alpha", "Beta", "Gamma")[: rng.randint(2, 3)]:
+            doc = "  # ti-doc: %s codec\n" % mod if rng.random() < 0.6 else ""
+            lines.append("module %s\n  class Codec\n%s    def encode(x)\n      %s\n    end\n  end\nend" % (mod, doc.replace("  #", "    #"), body))
+        lines.append("c1 = Alpha::Codec.new\nc1.encode(1)\nc2 = Beta::Codec.new\nc2.encode(1)")
         lines.append("class Base\n  def go(z)\n    z\n  end\nend")
         lines.append("a = Aa.new")
         lines.append("a.go(1)")
